@@ -1,15 +1,12 @@
 //go:build verif
 
-// C04, pending findings: minimal histories on which the tracked state is not what the history
-// says (assumptions A1-A4 of notes/design/C04.md). They FAIL on the current tree and pass
-// with notes/proposed-fixes/c04-*.diff applied; they are named TestPendingC04_* so that
-// `bin/check C04` (which runs ^TestC04_) does not pick them up. Rename one to TestC04_* in
-// the commit that fixes it.  Run: go test -tags verif -run '^TestPendingC04_' ./witness
+// C04: four messages the tracked state used to misread (repaired in /repo by 1202858, b2cf3ea,
+// 5501026, 0dc8f0c). Each test fails on the tree before its fix.
 package witness
 
 import "testing"
 
-func TestPendingC04_JoinRecordsIdentityOfKnownUser(t *testing.T) {
+func TestC04_JoinRecordsIdentityOfKnownUser(t *testing.T) {
 	s := joined(t) // alice is known from a plain NAMES line: no ident/host yet
 	defer s.Stop()
 	s.Feed(":me!user@host JOIN #two")
@@ -20,7 +17,7 @@ func TestPendingC04_JoinRecordsIdentityOfKnownUser(t *testing.T) {
 	}
 }
 
-func TestPendingC04_ExtendedJoinStarMeansLoggedOut(t *testing.T) {
+func TestC04_ExtendedJoinStarMeansLoggedOut(t *testing.T) {
 	s := joined(t)
 	defer s.Stop()
 	s.Feed(":me!user@host JOIN #two")
@@ -31,7 +28,7 @@ func TestPendingC04_ExtendedJoinStarMeansLoggedOut(t *testing.T) {
 	}
 }
 
-func TestPendingC04_AccountTagOnIntroducingJoin(t *testing.T) {
+func TestC04_AccountTagOnIntroducingJoin(t *testing.T) {
 	s := joined(t)
 	defer s.Stop()
 	s.Feed("@account=acct :carol!c@h JOIN #chan")
@@ -40,7 +37,7 @@ func TestPendingC04_AccountTagOnIntroducingJoin(t *testing.T) {
 	}
 }
 
-func TestPendingC04_IsupportEmptyValue(t *testing.T) {
+func TestC04_IsupportEmptyValue(t *testing.T) {
 	s := joined(t)
 	defer s.Stop()
 	s.Feed(":srv 005 me SILENCE= NETWORK=Test :are supported by this server")
